@@ -634,3 +634,81 @@ def sibling_bounds(facts):
                     "insert path performs: an edge to a non-existent node is accepted")
     o.r.floor = 1
     return o.r
+
+
+# ----------------------------------------------------------------------------------------------
+def graphmap_lockstep(facts):
+    """GraphMap keeps two maps: the adjacency lists in `nodes` and the weights in `edges`"""
+    o = Obl("GUARD-GRAPHMAP", "GraphMap: a mutation of the edge map (`edges`) is never control-dependent on the outcome of an adjacency-list update "
+                              "(remove_single_edge / Vec::swap_remove on a row): the two maps are updated independently for every affected entry; "
+                              "add_edge pushes the Outgoing entry at a and the Incoming mirror at b only under a != b; remove_edge removes both "
+                              "entries under the same a != b test")
+    n = 0
+    for root in facts.bodies:
+        if root.file != "src/graphmap.rs" or root.kind not in ("AssocFn", "Fn"):
+            continue
+        if not root.impl_selfhead.endswith("graphmap::GraphMap"):
+            continue
+        for b in facts.with_closures(root):
+            for i, t in b.calls():
+                f = t["f"]
+                nm = last_seg(f["path"])
+                if f.get("crate") != "indexmap" or nm not in ("insert", "swap_remove", "shift_remove", "insert_full", "swap_remove_full", "shift_remove_full"):
+                    continue
+                l = op_local(t["args"][0]) if t["args"] else None
+                if l is None or "IndexMap<(" not in b.lty(l):
+                    continue
+                n += 1
+                dep = []
+                for (e, truth, src) in dom_atoms(b, i):
+                    for s in walk_expr(e):
+                        if isinstance(s, tuple) and s[0] == "call" and (callee_name(s[1]).endswith("GraphMap::remove_single_edge")
+                                                                        or (last_seg(s[1]["path"]) in ("swap_remove", "position") and "Vec" in norm_path(s[1]["path"]))):
+                            dep.append(last_seg(callee_name(s[1])))
+                o.check(b, "edges.%s#%d" % (nm, n), t["line"], not dep, "edge-map update not conditional on an adjacency-list update",
+                        "the edge map is only updated if the adjacency-list update (%s) reported success: for a self-loop of a node under removal the "
+                        "row is already gone, so the edge value would stay behind" % ", ".join(sorted(set(dep))))
+    # add_edge / remove_edge mirror discipline
+    for b in o.need_fn(facts, "graphmap::GraphMap::add_edge"):
+        pushes = []
+        for i, t in b.calls():
+            if last_seg(t["f"]["path"]) == "push" and len(t["args"]) >= 2:
+                e = b.expr(t["args"][1], 5)
+                if e[0] == "agg" and len(e[3]) == 2 and isinstance(e[3][1], tuple) and e[3][1][0] == "enum":
+                    pushes.append((i, t, e[3][1][2]))
+                elif e[0] == "agg" and len(e[3]) == 2:
+                    d = e[3][1]
+                    nm = d[2] if isinstance(d, tuple) and len(d) > 2 else str(d)
+                    pushes.append((i, t, str(nm)))
+        dirs = sorted(p[2] for p in pushes)
+        o.check(b, "mirror-pushes", b.line, dirs == ["Incoming", "Outgoing"], "pushes one Outgoing and one Incoming entry",
+                "add_edge must push exactly one (b, Outgoing) entry and one (a, Incoming) mirror entry; found %s" % dirs)
+        for (i, t, d) in pushes:
+            if d == "Incoming":
+                ok = any(isinstance(e, tuple) and e[0] == "bin" and e[1] == "Ne" and truth is True for (e, truth, src) in dom_atoms(b, i))
+                o.check(b, "incoming-under-ne", t["line"], ok, "Incoming mirror pushed only under a != b (a self-loop is stored once)",
+                        "the Incoming mirror entry is pushed without the a != b test: a self-loop would be listed twice")
+    for b in o.need_fn(facts, "graphmap::GraphMap::remove_edge"):
+        rs = [(i, t) for i, t in b.calls() if callee_name(t["f"]).endswith("GraphMap::remove_single_edge")]
+        o.check(b, "two-removals", b.line, len(rs) == 2, "removes the Outgoing entry and the Incoming mirror", "expected 2 remove_single_edge calls, found %d" % len(rs))
+        guarded = [any(isinstance(e, tuple) and e[0] == "bin" and e[1] == "Ne" and truth is True for (e, truth, src) in dom_atoms(b, i)) for (i, t) in rs]
+        o.check(b, "mirror-under-ne", b.line, sorted(guarded) == [False, True], "exactly the mirror removal is under a != b",
+                "remove_edge must remove the mirror entry exactly when a != b (as add_edge inserted it); guards found: %s" % guarded)
+    o.r.floor = 7
+    return o.r
+
+
+def matrix_order(facts):
+    o = Obl("FLOW-MATRIX", "MatrixGraph::remove_node clears the row and the column of the node while its id is still live: the id is released "
+                           "(IdStorage::remove) only after the clearing loop over iter_ids(), so the (a, a) cell is visited too")
+    for b in o.need_fn(facts, "matrix_graph::MatrixGraph::remove_node"):
+        it = [i for i, t in b.calls() if callee_name(t["f"]).endswith("IdStorage::iter_ids")]
+        rm = [i for i, t in b.calls() if callee_name(t["f"]).endswith("IdStorage::remove")]
+        o.check(b, "has-both", b.line, bool(it) and bool(rm), "clearing loop over iter_ids() and IdStorage::remove found", "iter_ids()/IdStorage::remove not found")
+        if it and rm:
+            bad = [r_ for r_ in rm if any(b.dominates(r_, i) for i in it)]
+            o.check(b, "release-after-clear", b.line, not bad, "the id is released after the clearing loop",
+                    "the node id is released before the loop that clears its row/column: iter_ids() no longer yields it, so its self-loop "
+                    "cell (a, a) is never cleared and survives into the next node that reuses the id")
+    o.r.floor = 2
+    return o.r
